@@ -9,6 +9,7 @@ class C23(dfir.DfirSpec):
     theorems = ["C23_handoff_complete"]
     modes = ("ticks", "avail")
     level = "other"
+    explanation = 'Not category proof: the theorem interp_partitioned = denote_flat (induction along subgraph_toposort over a WellFormed partitioned graph) is not proved; only the per-handoff lemma C23_handoff_complete is. The order of subgraphs is taken from the real partitioner (C18).'
     assumptions = [
         "denotation of the flat graph = the same Coq interpreter run on one subgraph holding every operator in "
         "topological order with same-tick handoffs as plain wires (lowered by tools/dfir.py from the real meta graph)",
